@@ -45,13 +45,14 @@ type report struct {
 }
 
 var (
-	flagDir      = flag.String("dir", ".", "module directory to load from")
-	flagFull     = flag.String("full", "github.com/openfga/language/pkg/go", "import path prefix that gets every rewrite")
-	flagMapOnly  = flag.String("maponly", "gonum.org/v1/gonum/graph,github.com/antlr4-go/antlr/v4", "comma separated import path prefixes that get the map-range rewrite only")
-	flagTags     = flag.String("tags", "safe", "build tags")
-	flagReport   = flag.String("report", "", "write JSON report here")
-	flagNoYields = flag.Bool("noyields", false, "do not insert yield points")
-	flagTests    = flag.Bool("tests", false, "also instrument _test.go files of the full packages (never needed; off)")
+	flagDir        = flag.String("dir", ".", "module directory to load from")
+	flagFull       = flag.String("full", "github.com/openfga/language/pkg/go", "import path prefix that gets every rewrite")
+	flagMapOnly    = flag.String("maponly", "gonum.org/v1/gonum/graph,github.com/antlr4-go/antlr/v4", "comma separated import path prefixes that get the map-range rewrite only")
+	flagTags       = flag.String("tags", "safe", "build tags")
+	flagReport     = flag.String("report", "", "write JSON report here")
+	flagNoYields   = flag.Bool("noyields", false, "do not insert yield points")
+	flagStmtYields = flag.Bool("stmtyields", true, "yield before every statement of the hand-written packages")
+	flagTests      = flag.Bool("tests", false, "also instrument _test.go files of the full packages (never needed; off)")
 )
 
 func main() {
@@ -312,7 +313,13 @@ func (in *instr) run() bool {
 			in.rewriteCall(c, n)
 		case *ast.GoStmt:
 			if in.full {
-				in.rep.Uncontrolled = append(in.rep.Uncontrolled, in.site("go-statement", n.Pos(), ""))
+				if blk := in.rewriteGo(n); blk != nil {
+					in.rep.SyncSites = append(in.rep.SyncSites, in.site("go", n.Pos(), ""))
+					c.Replace(blk)
+					in.changed = true
+				} else {
+					in.rep.Uncontrolled = append(in.rep.Uncontrolled, in.site("go-statement", n.Pos(), ""))
+				}
 			}
 		case *ast.SelectStmt:
 			if in.full {
@@ -367,8 +374,81 @@ func (in *instr) run() bool {
 			return true
 		}
 		ast.Inspect(in.file, walk)
+		// statement granularity for the hand-written packages (not the
+		// generated parser): a yield before every statement, so that a switch
+		// between two consecutive statements of a straight-line block is a
+		// schedule the simulator can produce
+		if *flagStmtYields && !strings.HasSuffix(in.pkg.PkgPath, "/gen") {
+			in.fn = nil
+			interleave := func(list []ast.Stmt) []ast.Stmt {
+				if len(list) == 0 {
+					return list
+				}
+				out := make([]ast.Stmt, 0, 2*len(list))
+				for i, st := range list {
+					_, isLabel := st.(*ast.LabeledStmt)
+					es, isExpr := st.(*ast.ExprStmt)
+					prevYield := false
+					if i > 0 {
+						if pes, ok := list[i-1].(*ast.ExprStmt); ok && isYieldCall(pes) {
+							prevYield = true
+						}
+					}
+					if !isLabel && !prevYield && !(isExpr && isYieldCall(es)) {
+						out = append(out, &ast.ExprStmt{X: simCall("Yield", strLit(in.site("s", st.Pos(), "")))})
+						in.rep.YieldSites++
+					}
+					out = append(out, st)
+				}
+				in.changed = true
+				return out
+			}
+			skip := map[*ast.BlockStmt]bool{} // bodies that hold case clauses, not statements
+			ast.Inspect(in.file, func(n ast.Node) bool {
+				switch n := n.(type) {
+				case *ast.FuncDecl:
+					if n.Body == nil || hasPragma(n.Doc, "go:nosplit") || hasPragma(n.Doc, "go:norace") {
+						return false
+					}
+					name := n.Name.Name
+					if n.Recv != nil && len(n.Recv.List) > 0 {
+						name = recvName(n.Recv.List[0].Type) + "." + name
+					}
+					in.fn = []string{name}
+				case *ast.SwitchStmt:
+					skip[n.Body] = true
+				case *ast.TypeSwitchStmt:
+					skip[n.Body] = true
+				case *ast.SelectStmt:
+					skip[n.Body] = true
+				case *ast.BlockStmt:
+					if skip[n] {
+						return true
+					}
+					n.List = interleave(n.List)
+				case *ast.CaseClause:
+					n.Body = interleave(n.Body)
+				case *ast.CommClause:
+					n.Body = interleave(n.Body)
+				}
+				return true
+			})
+		}
 	}
 	return in.changed
+}
+
+func isYieldCall(es *ast.ExprStmt) bool {
+	c, ok := es.X.(*ast.CallExpr)
+	if !ok {
+		return false
+	}
+	sel, ok := c.Fun.(*ast.SelectorExpr)
+	if !ok {
+		return false
+	}
+	x, ok := sel.X.(*ast.Ident)
+	return ok && x.Name == "simrt" && sel.Sel.Name == "Yield"
 }
 
 func hasPragma(cg *ast.CommentGroup, p string) bool {
@@ -510,11 +590,17 @@ func (in *instr) rewriteCall(c *astutil.Cursor, call *ast.CallExpr) {
 		simName, wantSite = "RWMutexRLock", true
 	case "(*sync.RWMutex).RUnlock":
 		simName = "RWMutexRUnlock"
+	case "(*sync.WaitGroup).Add":
+		simName = "WaitGroupAdd"
+	case "(*sync.WaitGroup).Done":
+		simName = "WaitGroupDone"
+	case "(*sync.WaitGroup).Wait":
+		simName, wantSite = "WaitGroupWait", true
 	default:
 		if fn.Pkg().Path() == "sync" || fn.Pkg().Path() == "sync/atomic" {
 			// WaitGroup, Cond, Map, Pool, atomics: visible to the race detector,
 			// not to the scheduler.
-			if strings.Contains(full, "WaitGroup") || strings.Contains(full, "Cond") || strings.Contains(full, "sync.Map") || strings.Contains(full, "sync.Pool") {
+			if strings.Contains(full, "Cond") || strings.Contains(full, "sync.Map") || strings.Contains(full, "sync.Pool") {
 				in.rep.Uncontrolled = append(in.rep.Uncontrolled, in.site("call "+full, call.Pos(), ""))
 			}
 		}
@@ -571,4 +657,47 @@ func structOf(t types.Type) *types.Struct {
 			return nil
 		}
 	}
+}
+
+// rewriteGo turns `go f(a, b)` into
+//
+//	{ _vf := f; _v0 := a; _v1 := b; simrt.Go(func() { _vf(_v0, _v1) }) }
+//
+// so that the function value and the arguments are still evaluated by the
+// parent at the go statement (as the language specifies) while the new
+// goroutine becomes a simulated task. Returns nil for forms it does not handle
+// (builtins, conversions): those stay real goroutines and are reported.
+func (in *instr) rewriteGo(g *ast.GoStmt) ast.Stmt {
+	call := g.Call
+	info := in.pkg.TypesInfo
+	if tv, ok := info.Types[call.Fun]; ok && (tv.IsType() || tv.IsBuiltin()) {
+		return nil
+	}
+	var stmts []ast.Stmt
+	assign := func(name string, e ast.Expr) ast.Expr {
+		id := ast.NewIdent(name)
+		stmts = append(stmts, &ast.AssignStmt{Lhs: []ast.Expr{id}, Tok: token.DEFINE, Rhs: []ast.Expr{e}})
+		return ast.NewIdent(name)
+	}
+	var fun ast.Expr
+	if lit, ok := ast.Unparen(call.Fun).(*ast.FuncLit); ok {
+		fun = lit // a literal needs no evaluation
+	} else {
+		fun = assign("_verifGoF", call.Fun)
+	}
+	args := make([]ast.Expr, len(call.Args))
+	for i, a := range call.Args {
+		if tv, ok := info.Types[a]; ok && tv.IsNil() {
+			args[i] = a
+			continue
+		}
+		args[i] = assign("_verifGoA"+strconv.Itoa(i), a)
+	}
+	inner := &ast.CallExpr{Fun: fun, Args: args, Ellipsis: call.Ellipsis}
+	if call.Ellipsis != token.NoPos {
+		inner.Ellipsis = 1
+	}
+	body := &ast.BlockStmt{List: []ast.Stmt{&ast.ExprStmt{X: inner}}}
+	stmts = append(stmts, &ast.ExprStmt{X: simCall("Go", &ast.FuncLit{Type: &ast.FuncType{Params: &ast.FieldList{}}, Body: body})})
+	return &ast.BlockStmt{List: stmts}
 }
